@@ -32,6 +32,7 @@ CFGS = [
     dict(name='leak-window', H=H, dur=3 * H, pauses=[H, 2 * H], pickle=True, controls=[dict(kind='leak', target='J2')]),
     dict(name='level-control', H=H, dur=3 * H, pauses=[2 * H], pickle=False, controls=[dict(kind='level', target='P2', rel='gt', value=0)]),
     dict(name='tank-min-isolates', H=H, dur=4 * H, pauses=[2 * H], pickle=False, dead_end=True, tank_q=-0.02, controls=[]),
+    dict(name='tank-min-crossed-right-after-the-pause', H=H, dur=3 * H, pauses=[H], pickle=False, dead_end=True, tank_q=-0.02, controls=[]),
     dict(name='isolate-reconnect', H=H, dur=3 * H, pauses=[H], pickle=False, dead_end=True, controls=[dict(kind='status', target='P4', value=0), dict(kind='status', target='P4', value=1)]),
     dict(name='setting+clock', H=H, dur=2 * H, pauses=[H], pickle=True, clock=True, controls=[dict(kind='setting', target='VT', value='sym'), dict(kind='status', target='P2', value=0, clock=True)]),
 ]
